@@ -363,6 +363,24 @@ M('c09-addlast-index', 'C09', 'src/containers/qlist.c', "    return qlist_addat(
 M('c09-datasum-not-updated', 'C09', 'src/containers/qlist.c', "    list->datasum -= obj->size;\n", "", 'E3', 'remove_obj', 'byte total not reduced on removal')
 M('c09-limit-ignored', 'C09', 'src/containers/qlist.c', "    if (list->max > 0 && list->num >= list->max) {", "    if (list->max > 0 && list->num > list->max + 1) {", 'E4', 'qlist_addat', 'size limit off by two')
 
+# ---- C17 / C19 -------------------------------------------------------------------------------
+M('c17-url-truncated-escape', 'C17', 'src/utilities/qencode.c',
+  "                if (*(pEncPt + 1) != '\\0' && *(pEncPt + 2) != '\\0') {", "                if (*(pEncPt + 1) != '\\0') {", 'CU1', 'qurl_decode', 'second escape digit not checked against the terminator')
+M('c17-hex-odd', 'C17', 'src/utilities/qencode.c', "*pEncPt != '\\0' && *(pEncPt + 1) != '\\0'; pEncPt += 2", "*pEncPt != '\\0'; pEncPt += 2", 'CU1', 'qhex_decode', 'stride 2 over an odd-length string')
+M('c17-b64-lookahead', 'C17', 'src/utilities/qencode.c', "        char cByte = B64MAPTBL[(unsigned char) (*pEncPt)];\n        if (cByte == 64)\n            continue;",
+  "        char cByte = B64MAPTBL[(unsigned char) (*pEncPt)];\n        if (cByte == 64) {\n            if (*(pEncPt + 1) == '=' || *(pEncPt + 2) == '=') pEncPt += 2;\n            continue;\n        }", 'CU1', 'qbase64_decode', 'padding look-ahead past the terminator')
+M('c17-aconf-backslash', 'C17', 'src/extensions/qaconf.c', "                    if (qtmark > 0 && *(wp2 + 1) != '\\0') {", "                    if (qtmark > 0) {", 'CU1', '_parse_inline', 'trailing backslash steps over the terminator')
+M('c17-aconf-eol', 'C17', 'src/extensions/qaconf.c', "            if (doneparsing == false) {\n                wp2++;\n            }", "            wp2++;", 'CU1', '_parse_inline', 'one byte past the end of every line')
+M('c17-aconf-uninit', 'C17', 'src/extensions/qaconf.c', "        qaconf_cbdata_t *cbdata = NULL;\n\n        if (fgets(buf, MAX_LINESIZE, fp) == NULL) {", "        qaconf_cbdata_t *cbdata;\n\n        if (fgets(buf, MAX_LINESIZE, fp) == NULL) {", 'CU3', '_parse_inline', 'callback data read uninitialised on the unclosed-section exit')
+M('c17-makeword-overrun', 'C17', 'src/internal/qinternal.c', "    if (str[len])\n        len++;", "    len++;", 'CU1', '_q_makeword', 'separator skip without checking for the terminator')
+M('c17-decoder-expands', 'C17', 'src/utilities/qencode.c', "            case '+': {\n                *pBinPt++ = ' ';\n                break;\n            }", "            case '+': {\n                *pBinPt++ = ' ';\n                *pBinPt++ = ' ';\n                break;\n            }", 'CU1', 'qurl_decode', 'in-place decoder writes ahead of the read cursor')
+M('c19-no-clamp', 'C19', 'src/utilities/qstring.c', "    if (nbytes >= size)\n        nbytes = size - 1;\n", "", 'Q1', 'qstrncpy', 'copy length not clamped to the destination')
+M('c19-clamp-off-by-one', 'C19', 'src/utilities/qstring.c', "    if (nbytes >= size)\n        nbytes = size - 1;", "    if (nbytes > size)\n        nbytes = size;", 'Q1', 'qstrncpy', 'terminator stored one past the destination')
+M('c19-gets-bound', 'C19', 'src/utilities/qstring.c', "*from != '\\0' && i < (size - 1); i++, from++", "*from != '\\0' && i < size; i++, from++", 'Q1', 'qstrgets', 'line reader fills the buffer completely, terminator one past')
+M('c19-gets-double-advance', 'C19', 'src/utilities/qstring.c', "        *to = *from;\n        to++;", "        *to = *from;\n        to++;\n        if (*from == '\\t') { *to = ' '; to++; }", 'Q1', 'qstrgets', 'cursor advances faster than the bounded counter')
+M('c19-strcpy-unbounded', 'C19', 'src/utilities/qstring.c', "    size_t nbytes = strlen(src);\n    return qstrncpy(dst, size, src, nbytes);", "    return strcpy(dst, src);", 'Q1', 'qstrcpy', 'bounded copy replaced by strcpy')
+M('c19-trim-memcpy', 'C19', 'src/utilities/qstring.c', "        size_t len = (se - ss) + 1;\n        memmove(str, ss, len);\n    }\n\n    return str;", "        size_t len = (se - ss) + 1;\n        memcpy(str, ss, len);\n    }\n\n    return str;", 'M1', None, 'in-place trim with memcpy')
+
 
 def run_selftest(prop, rep, rule_fn, config='cmake-release'):
     """Apply every mutant of `prop` to a scratch copy, run rule_fn(prog, report) on it, and
